@@ -21,7 +21,8 @@ EXPLANATION = (
     'while its true edge reaches the skip record and the next part without touching the namespace; '
     'R6 the directive regex only ever sees tokenizer COMMENT tokens; R7 command-line defaults reach the run state through one config key. '
     'Part-break placement for every statement shape and directive histories are not decided.'
-    ' R12 RuntimeState.update never leaves its loops over directives / effects early. R13 the copy of a persistent set into the working state is guarded by `key not in state`.')
+    ' R12 RuntimeState.update never leaves its loops over directives / effects early. R13 the copy of a persistent set into the working state is guarded by `key not in state`.'
+    ' R15 while effects are applied RuntimeState.update never deletes a single entry of the state it works on (an inline entry shadows the persistent one until the overlay is cleared whole).')
 DECIDES = ['MUST-PASS overlay clear + WHO-MAY writers', 'alias-sensitive WHO-MAY under inline', 'read-before-write on overlay', 'lookup order', 'skip test dominance', 'FLOW comments only', 'defaults key agreement']
 NOT_DECIDED = ['that the parser places a part break before every directive and after every inline one for every statement shape', 'behaviour over directive histories']
 
@@ -35,7 +36,7 @@ GLOBAL = '_global_state'
 def run(ctx):
     for fn in (r1_overlay_lifetime, r2_inline_never_persistent, r3_overlay_read_before_write, r4_lookup_order,
                r5_run_loop, r6_comments_only, r7_defaults_path, r8_break_placement, r9_inline_classification, r10_effects_at_call_time, r11_statement_starts,
-               r12_every_effect_applied, r13_overlay_copy_on_first_write, r14_directive_arguments):
+               r12_every_effect_applied, r13_overlay_copy_on_first_write, r14_directive_arguments, r15_no_entry_deleted):
         ctx.rep.rule(fn, ctx)
 
 
@@ -982,6 +983,42 @@ def r13_overlay_copy_on_first_write(ctx):
     rep.floor('C04.R13', 'copies of a persistent set into the working state', n_copies, 1)
 
 
+def r15_no_entry_deleted(ctx):
+    """the overlay of an inline directive holds, for every key it has touched, the value in force for this statement; lookups fall back to the
+    persistent state for absent keys.  Deleting a single entry while effects are applied (a "tidy-up" of an entry that became empty) therefore
+    puts the persistent value back in force -- `-REQUIRES(a)` after a block `+REQUIRES(a)` would skip the statement again.  The overlay may
+    only be emptied whole, before the effects (R1)."""
+    rep = ctx.rep
+    f = ctx.func(UPD)
+    recv = _recv(f)
+    loops = [n for n in ast.walk(f.node) if isinstance(n, (ast.For, ast.While))]
+    need(loops, 'C04.R15: no loop in RuntimeState.update')
+    states = {recv + '.' + INLINE, recv + '.' + GLOBAL}
+    for n in ast.walk(f.node):
+        if isinstance(n, ast.Assign) and len(n.targets) == 1 and isinstance(n.targets[0], ast.Name) and field_name(n.value, recv) in states:
+            states.add(n.targets[0].id)
+
+    def is_state(e):
+        return (isinstance(e, ast.Name) and e.id in states) or field_name(e, recv) in states
+    bad = []
+    for lp in loops:
+        for x in ast.walk(lp):
+            if isinstance(x, ast.Delete) and any(isinstance(t, ast.Subscript) and is_state(t.value) for t in x.targets):
+                bad.append(x)
+            elif isinstance(x, ast.Call) and isinstance(x.func, ast.Attribute) and x.func.attr in ('pop', 'popitem', '__delitem__') and is_state(x.func.value):
+                bad.append(x)
+    seen = []
+    for x in bad:
+        if any(x is y for y in seen):
+            continue
+        seen.append(x)
+        rep.ob('C04.R15', ctx.loc(f, x), ctx.src(x), False,
+               'an entry of the working state is deleted while effects are applied: for an inline directive the lookup falls back to the persistent value, so the '
+               'effect that emptied the entry is undone (an inline -REQUIRES(a) after a block +REQUIRES(a) skips the statement again)', anchor=UPD)
+    rep.ob('C04.R15', ctx.loc(f, f.node), 'no single entry of the working state is deleted in the effect loops', not seen,
+           'entries are only written; the overlay is emptied whole before the effects' if not seen else '%d deletion(s)' % len(seen), nontrivial=False, anchor=UPD)
+
+
 def r14_directive_arguments(ctx):
     """the conditions of `REQUIRES(a, b)` are the text strictly between the parentheses and the option name is the text before the opening one:
     with the opening parenthesis left in the first argument (`(a`) no requirement is ever recognised as met or named again by -REQUIRES"""
@@ -1020,6 +1057,8 @@ DE = 'xdoctest/doctest_example.py'
 DI = 'xdoctest/directive.py'
 SA = 'xdoctest/static_analysis.py'
 VARIANTS = [
+    fire('empty-inline-entry-tidied-away', 'C04.R15', ('xdoctest/directive.py', "                        state[key].remove(value)\n                    except KeyError:\n                        pass\n",
+                                                        "                        state[key].remove(value)\n                    except KeyError:\n                        pass\n                    if not state[key] and state is self._inline_state:\n                        del state[key]\n")),
     fire('default-options-lose-their-sign', 'C04.R7', (DE, "                default_runtime_state[directive.name] = directive.positive\n", "                default_runtime_state[directive.name] = True\n")),
     fire('requires-argument-keeps-the-parenthesis', 'C04.R14', ('xdoctest/directive.py', "        body = optpart[paren_pos + 1:optpart.find(')')]\n", "        body = optpart[paren_pos + 0:optpart.find(')')]\n")),
     fire('noop-effect-ends-the-directive', 'C04.R12', ('xdoctest/directive.py', "                if action == 'noop':\n                    continue\n", "                if action == 'noop':\n                    break\n")),
